@@ -384,6 +384,36 @@ impl Model {
         self.nodes[el].attrs.iter().cloned().find(|a| local_of(&self.nodes[*a].name) == local)
     }
 
+    /// no empty text node and no two adjacent text nodes under an attached element: only then
+    /// does a re-parse of the serialisation have the same nodes as the live document
+    pub fn text_normal(&self, doc: usize) -> bool {
+        let mut stack = vec![self.docs[doc].root];
+        while let Some(m) = stack.pop() {
+            let n = &self.nodes[m];
+            let mut prev_text = false;
+            for c in &n.children {
+                let k = &self.nodes[*c];
+                if k.kind == Kind::Text {
+                    // '>' is serialised as a reference, i.e. re-parses as a separate node
+                    if k.data.is_empty() || prev_text || k.data.contains('>') {
+                        return false;
+                    }
+                    prev_text = true;
+                } else {
+                    prev_text = false;
+                    if k.kind == Kind::Element {
+                        stack.push(*c);
+                    }
+                }
+            }
+        }
+        true
+    }
+
+    pub fn has_document_element(&self, doc: usize) -> bool {
+        self.nodes[self.docs[doc].root].children.iter().any(|c| self.nodes[*c].kind == Kind::Element)
+    }
+
     /// alive, non-dead nodes
     pub fn alive(&self) -> Vec<Mid> {
         (0..self.nodes.len()).filter(|m| !self.nodes[*m].dead).collect()
@@ -540,13 +570,10 @@ impl Model {
             }
         }
         if n.kind == Kind::Fragment {
-            if errs.is_empty() {
-                let mut p = Plan::either(vec![ErrClass::Hierarchy], "fragment as new child");
-                p.no_effect = true;
-                return p;
-            }
-            errs.push(ErrClass::Hierarchy);
-            return Plan::fail(errs);
+            // DocumentFragment is a stub in this DOM (always empty, "TODO: re-implement"): any refusal, or no effect
+            let mut p = Plan::lenient("fragment as new child");
+            p.no_effect = true;
+            return p;
         }
         if new == recv || self.is_ancestor(new, recv) {
             errs.push(ErrClass::Hierarchy);
@@ -574,6 +601,16 @@ impl Model {
             errs.sort();
             errs.dedup();
             return Plan::fail(errs);
+        }
+        if r.kind == Kind::Document && n.kind == Kind::Element {
+            // DOM L1 is silent; well-formedness wants the doctype before the document element
+            if let (Some(rc), Some(dt)) = (refc, r.children.iter().position(|c| self.nodes[*c].kind == Kind::DocType)) {
+                if r.children.iter().position(|c| *c == rc).map(|i| i <= dt).unwrap_or(false) {
+                    let mut p = Plan::either(vec![ErrClass::Hierarchy], "document element before the doctype");
+                    p.adopt = vec![recv];
+                    return p;
+                }
+            }
         }
         if Some(new) == refc {
             let mut p = Plan::either(vec![ErrClass::Hierarchy, ErrClass::NotFound], "new == ref");
@@ -626,14 +663,10 @@ impl Model {
             errs.push(ErrClass::NotFound);
         }
         if n.kind == Kind::Fragment {
-            if errs.is_empty() {
-                // replace by an empty fragment = removal of old, or refusal
-                let mut p = Plan::either(vec![ErrClass::Hierarchy], "fragment as new child");
-                p.adopt = vec![recv];
-                return p;
-            }
-            errs.push(ErrClass::Hierarchy);
-            return Plan::fail(errs);
+            // replace by an (always empty) fragment = removal of old, or any refusal
+            let mut p = Plan::lenient("fragment as new child");
+            p.adopt = vec![recv];
+            return p;
         }
         if new == recv || self.is_ancestor(new, recv) {
             errs.push(ErrClass::Hierarchy);
@@ -667,6 +700,15 @@ impl Model {
             errs.dedup();
             return Plan::fail(errs);
         }
+        if r.kind == Kind::Document && n.kind == Kind::Element {
+            if let Some(dt) = r.children.iter().position(|c| self.nodes[*c].kind == Kind::DocType) {
+                if r.children.iter().position(|c| *c == old).map(|i| i <= dt).unwrap_or(false) {
+                    let mut p = Plan::either(vec![ErrClass::Hierarchy], "document element before the doctype");
+                    p.adopt = vec![recv];
+                    return p;
+                }
+            }
+        }
         if new == old {
             let mut p = Plan::either(vec![ErrClass::Hierarchy, ErrClass::NotFound], "new == old");
             p.adopt = vec![recv];
@@ -682,8 +724,8 @@ impl Model {
         if !all_chars(value) {
             return Plan::lenient("non-Char in attribute value");
         }
-        if value.contains('<') || (value.contains('\'') && value.contains('"')) {
-            return Plan::lenient("attribute value with '<' or both quote kinds");
+        if value.contains('<') || value.contains('&') || (value.contains('\'') && value.contains('"')) {
+            return Plan::lenient("attribute value with '<', '&' or both quote kinds");
         }
         Plan::ok()
     }
@@ -742,8 +784,10 @@ impl Model {
                     Some(e) if self.nodes[e].kind == Kind::Element => e,
                     _ => return Plan::skip(),
                 };
-                if !is_name(name) {
-                    return Plan::fail(vec![ErrClass::InvalidChar]);
+                if !has_only_name_chars(name) {
+                    let mut p = Plan::fail(vec![ErrClass::InvalidChar]);
+                    p.any_err = self.plan_attr_value(value).any_err;
+                    return p;
                 }
                 if !is_qname(name) || name.starts_with("xmlns") {
                     let mut p = Plan::lenient("name is a Name but not a usable QName");
@@ -815,7 +859,7 @@ impl Model {
                 }
             }
             Op::CreateElement { name, .. } | Op::CreateAttr { name, .. } => {
-                if !is_name(name) {
+                if !has_only_name_chars(name) {
                     Plan::fail(vec![ErrClass::InvalidChar])
                 } else if !is_qname(name) || name.starts_with("xmlns") {
                     Plan::lenient("name is a Name but not a usable QName")
@@ -827,9 +871,9 @@ impl Model {
             Op::CreateComment { data, .. } => self.plan_create_data(Kind::Comment, data),
             Op::CreateCData { data, .. } => self.plan_create_data(Kind::CData, data),
             Op::CreatePI { target, data, .. } => {
-                if !is_name(target) || target.eq_ignore_ascii_case("xml") {
+                if !has_only_name_chars(target) || target.eq_ignore_ascii_case("xml") {
                     Plan::fail(vec![ErrClass::InvalidChar])
-                } else if target.contains(':') {
+                } else if target.contains(':') || !is_name(target) {
                     Plan::lenient("colon in PI target")
                 } else if !storable(Kind::PI, data) || risky(Kind::PI, data) {
                     Plan::lenient("markup-significant PI data")
@@ -838,20 +882,20 @@ impl Model {
                 }
             }
             Op::CreateEntRef { doc, name, .. } => {
-                if !is_name(name) {
+                if !has_only_name_chars(name) {
                     Plan::fail(vec![ErrClass::InvalidChar])
-                } else if name.contains(':') || self.entity_value(*doc, name).is_none() {
+                } else if !is_name(name) || name.contains(':') || self.entity_value(*doc, name).is_none() {
                     Plan::lenient("undeclared entity")
                 } else {
                     Plan::ok()
                 }
             }
             Op::CreateFragment { .. } => Plan::ok(),
-            Op::SetData { node, data } => self.plan_data(ns(node), 0, Some(data)),
-            Op::AppendData { node, data } => self.plan_data(ns(node), 0, Some(data)),
-            Op::InsertData { node, off, data } => self.plan_data(ns(node), *off, Some(data)),
-            Op::DeleteData { node, off, .. } => self.plan_data(ns(node), *off, None),
-            Op::ReplaceData { node, off, data, .. } => self.plan_data(ns(node), *off, Some(data)),
+            Op::SetData { node, data } => self.plan_data(ns(node), 0, Some(data), &step.op),
+            Op::AppendData { node, data } => self.plan_data(ns(node), 0, Some(data), &step.op),
+            Op::InsertData { node, off, data } => self.plan_data(ns(node), *off, Some(data), &step.op),
+            Op::DeleteData { node, off, .. } => self.plan_data(ns(node), *off, None, &step.op),
+            Op::ReplaceData { node, off, data, .. } => self.plan_data(ns(node), *off, Some(data), &step.op),
             Op::Substring { node, off, .. } => match ns(node) {
                 Some(m) if self.nodes[m].kind.is_chardata() => {
                     if *off > chars_len(&self.nodes[m].data) {
@@ -889,7 +933,7 @@ impl Model {
         }
     }
 
-    fn plan_data(&self, node: Option<Mid>, off: usize, data: Option<&String>) -> Plan {
+    fn plan_data(&self, node: Option<Mid>, off: usize, data: Option<&String>, op: &Op) -> Plan {
         let m = match node {
             Some(m) if self.nodes[m].kind.is_chardata() => m,
             _ => return Plan::skip(),
@@ -897,6 +941,12 @@ impl Model {
         let kind = self.nodes[m].kind;
         if off > chars_len(&self.nodes[m].data) {
             return Plan::fail(vec![ErrClass::IndexSize]);
+        }
+        // a result the node kind cannot hold may be refused (C15), whatever the fragment looks like
+        if let Some(after) = self.data_after(m, op) {
+            if !storable(kind, &after) {
+                return Plan::lenient("resulting data is not storable");
+            }
         }
         match data {
             Some(d) if risky(kind, d) => Plan::lenient("markup-significant data"),
